@@ -585,6 +585,19 @@ def memo_key(v):
 _NOHOME = object()
 
 
+def _is_generator(fnode):
+    def walk(n):
+        for c in ast.iter_child_nodes(n):
+            if isinstance(c, (ast.FunctionDef, ast.AsyncFunctionDef, ast.Lambda, ast.ClassDef)):
+                continue
+            if isinstance(c, (ast.Yield, ast.YieldFrom)):
+                return True
+            if walk(c):
+                return True
+        return False
+    return walk(fnode)
+
+
 class Interp:
     def __init__(self, env=None, selfattrs=None, region=None, methods=None, cls_name=None, max_steps=200000, externals=None):
         self.externals = externals or {}  # call name -> f(args, kwargs) modelling a callee outside the fragment
@@ -661,6 +674,21 @@ class Interp:
             sub.env[fnode.args.vararg.arg] = tuple(args[len(params):])
         if fnode.args.kwarg is not None:
             sub.env[fnode.args.kwarg.arg] = {k: v for k, v in kwargs.items() if k not in params and k not in kwd}
+        if _is_generator(fnode):
+            # A generator function is run to exhaustion at the call and stands for the list of what it yields.  That is what
+            # its consumer sees provided the two do not talk through shared state between the yields: a generator that
+            # stores into attributes / items of something it was handed is not interpreted.
+            handed = set(params) | {"self"}
+            for n_ in ast.walk(fnode):
+                if isinstance(n_, (ast.Attribute, ast.Subscript)) and isinstance(n_.ctx, (ast.Store, ast.Del)):
+                    b_ = n_
+                    while isinstance(b_, (ast.Attribute, ast.Subscript)):
+                        b_ = b_.value
+                    if isinstance(b_, ast.Name) and b_.id in handed:
+                        raise Undecided(f"generator {fnode.name} stores into `{b_.id}` between its yields")
+            sub._yields = []
+            sub.run(A.strip_docstring(fnode.body))
+            return sub._yields
         return sub.run(A.strip_docstring(fnode.body))
 
     def _home_name(self, e):
@@ -786,6 +814,8 @@ class Interp:
         elif isinstance(st, ast.Break):
             raise _Break()
         elif isinstance(st, (ast.Expr, ast.Assert, ast.Pass)):
+            if isinstance(st, ast.Expr) and isinstance(st.value, (ast.Yield, ast.YieldFrom)):
+                self.eval(st.value)
             if isinstance(st, ast.Expr) and isinstance(st.value, (ast.Attribute, ast.Subscript)):
                 # a bare `x.attr` / `d[k]` statement is an existence probe: only the exception it may raise matters
                 try:
@@ -1071,6 +1101,14 @@ class Interp:
             if isinstance(v, (int, float)):
                 return to_poly(v)
             raise Undecided("constant")
+        if isinstance(e, (ast.Yield, ast.YieldFrom)):
+            if not hasattr(self, "_yields"):
+                raise Undecided("yield outside an interpreted generator call")
+            if isinstance(e, ast.Yield):
+                self._yields.append(self.eval(e.value) if e.value is not None else None)
+            else:
+                self._yields.extend(self.iterable(self.eval(e.value), "yield from"))
+            return None
         if isinstance(e, ast.Name):
             if e.id in self.env:
                 return self.env[e.id]
@@ -1611,6 +1649,8 @@ class Interp:
             if not args:
                 raise Undecided(f"{name}()")
             v = ev(args[0])
+            if name in ("transpose", "squeeze", "expand_dims", "broadcast_to", "tile", "reshape", "ravel") and self.externals.get("__elementwise__") and isinstance(v, (list, tuple)):
+                raise Undecided(f"{name} of a list tensor is not modelled for these arguments")  # shapes matter in this scenario: not the identity
             if name == "float" and isinstance(v, str):
                 return to_poly(float(v))
             return v
@@ -1729,6 +1769,41 @@ class Interp:
                     out_.append(self._call_closure(callee, list(tup), {}))
                 else:
                     raise Undecided("map() of an unmodelled callable")
+            return out_
+        if name == "accumulate" and args and (isinstance(f, ast.Name) or A.dotted(f) == "itertools.accumulate") and "accumulate" not in self.env:
+            seq = list(self.iterable(ev(args[0]), "accumulate"))
+            opn = args[1] if len(args) > 1 else kw.get("func")
+            if "initial" in kw and ev(kw["initial"]) is not None:
+                seq = [ev(kw["initial"])] + seq
+            out_, acc = [], None
+            for i_, x_ in enumerate(seq):
+                if i_ == 0:
+                    acc = x_
+                elif opn is None or (A.dotted(opn) or "") in ("operator.add", "add"):
+                    acc = self.binop(ast.Add(), acc, x_)
+                elif (A.dotted(opn) or "") in ("operator.mul", "mul"):
+                    acc = self.binop(ast.Mult(), acc, x_)
+                else:
+                    callee = ev(opn)
+                    acc = callee.f([acc, x_], {}) if isinstance(callee, PyFunc) else self._call_closure(callee, [acc, x_], {}) if isinstance(callee, Closure) else None
+                    if acc is None:
+                        raise Undecided("accumulate with an unmodelled function")
+                out_.append(acc)
+            return out_
+        if name == "prod" and args and A.dotted(f) in ("math.prod", "prod") and "prod" not in self.env:
+            acc = ev(kw["start"]) if "start" in kw else Poly.const(1)
+            for x_ in self.iterable(ev(args[0]), "math.prod"):
+                acc = self.binop(ast.Mult(), acc, x_)
+            return acc
+        if name == "count" and A.dotted(f) in ("itertools.count", "count") and "count" not in self.env and len(args) <= 2 and not kw:
+            st_ = to_poly(ev(args[0])) if args else Poly.const(0)
+            dl_ = to_poly(ev(args[1])) if len(args) > 1 else Poly.const(1)
+            return [st_ + dl_ * Poly.const(i_) for i_ in range(2048)]  # only ever consumed through zip(), which stops at the shortest
+        if name in ("chain", "from_iterable") and A.dotted(f) in ("itertools.chain", "chain", "itertools.chain.from_iterable", "chain.from_iterable") and "chain" not in self.env:
+            parts_ = self.iterable(ev(args[0]), "chain") if name == "from_iterable" else self.eval_args(args)
+            out_ = []
+            for p_ in parts_:
+                out_.extend(self.iterable(p_, "chain"))
             return out_
         if name == "enumerate":
             s = ev(args[0])
